@@ -296,6 +296,39 @@ func thorough(prop, repo, verif string, r *Report, f checkFunc, p *Program) {
 		}
 		regress = append(regress, res)
 	}
+	// (4) silence on behaviour-preserving refactorings: every patch under
+	// refactors/ is applied to a scratch copy; this property's analysis must
+	// report nothing there
+	refs, _ := filepath.Glob(filepath.Join(verif, "refactors", "*", "patch.diff"))
+	sort.Strings(refs)
+	var silent []map[string]interface{}
+	nRef, nSilent := 0, 0
+	for _, patch := range refs {
+		id := filepath.Base(filepath.Dir(patch))
+		res := runVariant(prop, repo, f, func(tmp string) string {
+			ap := exec.Command("git", "apply", patch)
+			ap.Dir = tmp
+			if msg, err := ap.CombinedOutput(); err != nil {
+				return "patch no longer applies to the current tree: " + strings.TrimSpace(string(msg))
+			}
+			return ""
+		})
+		res["refactoring"] = id
+		if _, sk := res["skipped"]; !sk {
+			nRef++
+			if b, _ := res["fired"].(bool); !b {
+				nSilent++
+			} else {
+				fmt.Printf("REFACTOR-ALARM property=%s refactoring=%s rules=%v\n", prop, id, res["rules"])
+			}
+		}
+		silent = append(silent, res)
+	}
+	r.Stats["refactor_silence.applied"] = nRef
+	r.Stats["refactor_silence.silent"] = nSilent
+	if len(silent) > 0 {
+		r.Samples = append(r.Samples, map[string]interface{}{"refactor_silence": silent})
+	}
 	r.Stats["fix_regression.commits"] = nReg
 	r.Stats["fix_regression.reported_again"] = nRegFired
 	if len(regress) > 0 {
